@@ -63,7 +63,11 @@ fn run_batch(jobs: Vec<Job>, limit_ms: u64, jtx: &mut mpsc::Sender<Vec<Job>>, dr
         Err(_) => {
             let (a, b) = spawn_worker(); *jtx = a; *drx = b;
             let mut out = vec![];
+            let mut hangs = 0u32;
             for j in jobs {
+                // three established hangs in one batch are enough: the rest of the batch is not run (each hang costs seconds and leaves a
+                // spinning thread behind); skipped jobs produce no event
+                if hangs >= 3 { out.push(Done { out: Err("Skipped".into()), words: 0, us: 0 }); continue; }
                 let j2 = j.clone();
                 jtx.send(vec![j]).unwrap();
                 match drx.recv_timeout(Duration::from_millis(limit_ms)) {
@@ -75,7 +79,7 @@ fn run_batch(jobs: Vec<Job>, limit_ms: u64, jtx: &mut mpsc::Sender<Vec<Job>>, dr
                         jtx.send(vec![j2.clone()]).unwrap();
                         match drx.recv_timeout(Duration::from_millis(3 * limit_ms)) {
                             Ok(mut d) => out.push(d.pop().unwrap()),
-                            Err(_) => { let (a, b) = spawn_worker(); *jtx = a; *drx = b; out.push(Done { out: Err("Timeout".into()), words: 0, us: limit_ms * 1000 }); }
+                            Err(_) => { let (a, b) = spawn_worker(); *jtx = a; *drx = b; hangs += 1; out.push(Done { out: Err("Timeout".into()), words: 0, us: limit_ms * 1000 }); }
                         }
                     }
                 }
@@ -153,6 +157,7 @@ pub fn drive(args: &[String]) -> i32 {
                 let jobs: Vec<Job> = lat.iter().map(|&w| Job { entry: ei, prefix: vec![], seed: seed.wrapping_add(s * 7919 + ei as u64), at: pos, word: w, mode: 0 }).collect();
                 let dones = run_batch(jobs, limit_ms, &mut jtx, &mut drx);
                 for (&w, d) in lat.iter().zip(dones.into_iter()) {
+                    if d.out.as_ref().err().map(|p| p == "Skipped").unwrap_or(false) { continue; }
                     ncalls += 1;
                     let mut ev = base.clone();
                     ev["op"] = json!("call"); ev["pos"] = json!(pos); ev["word"] = json!(format!("{:#018x}", w)); ev["wc"] = json!(word_class(w));
@@ -189,6 +194,7 @@ pub fn drive(args: &[String]) -> i32 {
             } }
             let dones = run_batch(jobs, limit_ms, &mut jtx, &mut drx);
             for ((pos, w, k), d) in meta.into_iter().zip(dones.into_iter()) {
+                if d.out.as_ref().err().map(|p| p == "Skipped").unwrap_or(false) { continue; }
                 ncalls += 1;
                 let mut ev = base.clone();
                 ev["op"] = json!("call"); ev["pos"] = json!(pos); ev["word"] = json!(format!("{:#018x}", w)); ev["wc"] = json!(word_class(w)); ev["strat"] = json!(k);
@@ -233,6 +239,7 @@ pub fn drive(args: &[String]) -> i32 {
         }
         let block_calls = done_calls;
         for d in all {
+            if d.out.as_ref().err().map(|p| p == "Skipped").unwrap_or(false) { continue; }
             ncalls += 1;
             sum_words += d.words; max_words = max_words.max(d.words); max_us = max_us.max(d.us);
             match d.out {
